@@ -139,6 +139,23 @@ func primCases() []primCase {
 			enc: func(w io.Writer, v any) error { return util.WriteBytes17(w, v.([]byte), true) },
 			dec: func(rd io.Reader) (any, error) { return util.ReadBytes17(rd) },
 			ref: func(v any) []byte { b := v.([]byte); return append((&mcpeer.W{}).U16(uint16(len(b))).B, b...) }},
+		{name: "ExtendedForgeShort",
+			gen: func(r *Run) any {
+				if r.W.Pick(3) == 0 {
+					return []int{0, 1, 255, 256, 32767, 32768, 65535, 65536, 70000, 98303, 98304, 131072, 200000, util.ForgeMaxArrayLength}[r.W.Pick(14)]
+				}
+				return r.W.Pick(util.ForgeMaxArrayLength + 1)
+			},
+			enc: func(w io.Writer, v any) error { return util.WriteExtendedForgeShort(w, v.(int)) },
+			dec: func(rd io.Reader) (any, error) { return util.ReadExtendedForgeShort(rd) },
+			ref: func(v any) []byte {
+				n := v.(int)
+				low, high := n&0x7fff, (n&0x7f8000)>>15
+				if high != 0 {
+					return append((&mcpeer.W{}).U16(uint16(low|0x8000)).B, byte(high))
+				}
+				return (&mcpeer.W{}).U16(uint16(low)).B
+			}},
 		{name: "UTF",
 			gen: func(r *Run) any { return genString(r, 300) },
 			enc: func(w io.Writer, v any) error { return util.WriteUTF(w, v.(string)) },
